@@ -36,8 +36,8 @@ def scenarios(tier, fv):
     """name -> dict(lines, setup, world, argv, faults: bool (all single faults), quick: bool)"""
     S = []
 
-    def sc(name, lines, setup=(), world=("ok", "plain", "plain", "1"), argv=(b"true", b"arg"), faults=True, quick=False, ini=True):
-        S.append({"name": name, "lines": [b"[snoopy]"] + list(lines) if ini else None, "setup": ([] if any(x.startswith("stdin\t") for x in setup) else ["stdin\tnull"]) + list(setup), "world": list(world),
+    def sc(name, lines, setup=(), world=("ok", "plain", "plain", "1"), argv=(b"true", b"arg"), faults=True, quick=False, ini=True, calls=1, how=None):
+        S.append({"calls": calls, "how": how, "name": name, "lines": [b"[snoopy]"] + list(lines) if ini else None, "setup": ([] if any(x.startswith("stdin\t") for x in setup) else ["stdin\tnull"]) + list(setup), "world": list(world),
                   "argv": list(argv), "faults": faults, "quick": quick})
     dl = "devlog\t@D@/dl.sock\t0"
     sc("ini-absent-defaults", [], setup=[dl], quick=True, ini=False)
@@ -93,6 +93,13 @@ def scenarios(tier, fv):
        setup=["stdfd\t1\tpipe-noreader", "stdfd\t2\tpipe-noreader"], world=("absent", "noreader", "noreader", "1"), quick=True, faults=False)
     sc("errlog-failing-output-caller-pipes-full", [b"error_logging = yes", b"output = socket:@D@/nothing.sock", b'message_format = "m %{cmdline}"'],
        setup=["stdfd\t1\tpipe-full", "stdfd\t2\tpipe-full"], world=("absent", "full", "full", "1"), quick=True, faults=False)
+    # a second THREAD makes an exec call after the main thread's call met failing lookups (terminal without utmp record, %{datetime} format that
+    # overflows strftime's buffer): whatever the first call left locked blocks the second; then the main thread again
+    sc("second-thread-after-failed-lookups", [b"output = file:@D@/out.log", b'message_format = "t %{ipaddr} %{datetime:' + b"%Y-%m-%d %H:%M:%S " * 6 + b'} %{datetime:%s} %{cmdline}"'],
+       setup=["stdin\tpty"], quick=True, faults=False, calls=3, how=[None, "thread", None])
+    sc("second-thread-after-filter-drop", [b"output = file:@D@/out.log", b'filter_chain = "only_tty"'], quick=True, faults=False, calls=3, how=[None, "thread", None])
+    # the caller arrives with a stale errno (EINTR from an interrupted pause()/read()); the configuration file is there and readable
+    sc("caller-errno-eintr", [b"output = file:@D@/out.log", b'message_format = "e %{cmdline}"'], quick=True, faults=False, calls=2, how=["errno=4", "errno=11"])
     sc("sink-socket-absent", [b"output = socket:@D@/nothing.sock", b'message_format = "m %{cmdline}"'], world=("absent", "plain", "plain", "1"), quick=True, faults=False)
     sc("sink-socket-full-unread", [b"output = socket:@D@/s.sock", b'message_format = "m %{cmdline}"'], setup=["dgram\t@D@/s.sock\t1"], world=("dgramfull", "plain", "plain", "1"), quick=True, faults=False)
     sc("sink-devlog-absent", [b"output = devlog"], setup=["devlog-absent\t@D@/nothing.sock"], world=("absent", "plain", "plain", "1"), quick=True, faults=False)
@@ -108,7 +115,8 @@ def script_of(s, plans, retcodes=None):
     lines = [ini] + lines
     for i, pl in enumerate(plans):
         ret, err = (retcodes[i] if retcodes else (-1, E.ENOENT))
-        lines.append(call_line("execve" if i % 2 == 0 else "execv", b"/bin/true", s["argv"], [b"HOME=/root", b"PATH=/bin"] if i % 2 == 0 else None, ret, err, pl))
+        how = (s.get("how") or [None])[i % len(s.get("how") or [None])]
+        lines.append(call_line("execve" if i % 2 == 0 else "execv", b"/bin/true", s["argv"], [b"HOME=/root", b"PATH=/bin"] if i % 2 == 0 else None, ret, err, pl, how))
     return lines
 
 
@@ -287,10 +295,11 @@ def check(run):
         import random
         rng = random.Random("%d:%s" % (run.seed, s["name"]))      # per scenario: the plans do not depend on thread scheduling
         out = []
-        res, script = run_scenario(run, lib, s, ["-"], "%s-base" % re.sub(r"[^a-z0-9]+", "-", s["name"]))
+        nbase = s.get("calls", 1) or 1
+        res, script = run_scenario(run, lib, s, ["-"] * nbase, "%s-base" % re.sub(r"[^a-z0-9]+", "-", s["name"]))
         if "tmpfs" in res:
             state["tmpfs"] = res["tmpfs"]
-        out.append((s, res, script, ["-"], [(-1, E.ENOENT)], "base"))
+        out.append((s, res, script, ["-"] * nbase, [(-1, E.ENOENT)] * nbase, "base"))
         if not s["faults"] or not res["calls"] or res["calls"][0]["fatal"] or res["calls"][0]["ret"] is None:
             return out
         pos = positions(res["calls"][0])
